@@ -27,14 +27,20 @@ def load_contracts():
 
 def fingerprint(F, body, site):
     """line-number free description of a site: kind + structural expressions of the asserted operands"""
+    import hashlib
     t = body['blocks'][site.bb]['term']
+    names = body.get('debug', {})
     if t['t'] == 'assert':
-        ops = [expr_str(expr_of(F, body, o)) for o in t['ops']]
-        return '%s(%s)' % (t['kind'], ' ; '.join(ops))
-    if t['t'] == 'call':
-        ops = [expr_str(expr_of(F, body, a)) for a in t['args'][:3]]
-        return '%s(%s)' % (site.kind.split(':', 1)[1] if ':' in site.kind else site.kind, ' ; '.join(ops))
-    return site.kind
+        ops = [expr_str(expr_of(F, body, o), names) for o in t['ops']]
+        fp = '%s(%s)' % (t['kind'], ' ; '.join(ops))
+    elif t['t'] == 'call':
+        ops = [expr_str(expr_of(F, body, a), names) for a in t['args'][:3]]
+        fp = '%s(%s)' % (site.kind.split(':', 1)[1] if ':' in site.kind else site.kind, ' ; '.join(ops))
+    else:
+        fp = site.kind
+    if len(fp) > 180:
+        fp = fp[:170] + '~' + hashlib.sha1(fp.encode()).hexdigest()[:10]
+    return fp
 
 
 class PanicAnalysis:
